@@ -334,9 +334,9 @@ def run(ctx, replay_jobs=None, replay_glue=None):
         jobs = f5_probe_jobs()
     else:
         jobs = load_corpus() + f5_probe_jobs() + edge_jobs(rng)
-        jobs += [Job("X", "X", gen_rates_x(rng)) for _ in range(ctx.n(1400, 14000))]
-        jobs += [Job("D", "F", gen_rates_d(rng)) for _ in range(ctx.n(800, 8000))]
-        jobs += [Job("G", "F", gen_rates_g(rng)) for _ in range(ctx.n(640, 6400))]
+        jobs += [Job("X", "X", gen_rates_x(rng)) for _ in range(ctx.n(1400, 10000))]
+        jobs += [Job("D", "F", gen_rates_d(rng)) for _ in range(ctx.n(800, 6000))]
+        jobs += [Job("G", "F", gen_rates_g(rng)) for _ in range(ctx.n(640, 4500))]
     preset = [j for j in jobs if j.samples]
     run_impl(ctx, jobs)                     # round 1: tables
     for j in jobs:
